@@ -82,6 +82,9 @@ var sigRules = []sigRule{
 	// F21 lintrans
 	rule(`lintrans\.Evaluator\.(?:EvaluateMany|EvaluateSequential|MultiplyByDiagMatrix)/ct/result:value:out-history:larger-degree`, `lintrans.Evaluator.MultiplyByDiagMatrix/ct/larger-degree-output-keeps-old-component`),
 	rule(`lintrans\.Evaluator\.MultiplyByDiagMatrixBSGS/ct/result:value:out-history:larger-degree`, `lintrans.Evaluator.MultiplyByDiagMatrixBSGS/ct/larger-degree-output-keeps-old-component`),
+	// F23 mpbgv: Transform / Finalize never write the output's metadata and read the output's previous scale
+	rule(`mpbgv\.(?:MaskedTransformProtocol\.Transform|RefreshProtocol\.Finalize)/ct/result:(?:meta:Scale|meta|value):(?:alias:out==ct(?:In)?|out-history:dirty-meta)`,
+		`mpbgv.MaskedTransformProtocol.Transform/ct/output-metadata-not-set-and-output-scale-read`),
 	// F22 ring.DivRoundByLastModulus
 	rule(`ring\.Ring\.(?:DivRoundByLastModulus|DivRoundByLastModulusMany)/poly/input-modified:p0:.*`, `ring.Ring.DivRoundByLastModulus/poly/input-modified`),
 }
